@@ -67,41 +67,61 @@ static void handler_body(uint64_t uid, int epoch, int ttl) {
   }
 }
 
+static int g_fstate = 0;     // param fstate 1: every message uses a function object WITH state (8 bytes)
+static inline void on_message(uint64_t uid, int32_t epoch, int32_t ttl, int32_t leg, const std::vector<uint8_t>& blob, bool state_ok);
+
 struct msg_fn {
   template <typename Comm>
   void operator()(Comm* c, uint64_t uid, int32_t epoch, int32_t ttl, int32_t leg, const std::vector<uint8_t>& blob) {
+    on_message(uid, epoch, ttl, leg, blob, true);
+  }
+};
+struct msg_fn_s {
+  uint64_t salt;
+  template <typename Comm>
+  void operator()(Comm* c, uint64_t uid, int32_t epoch, int32_t ttl, int32_t leg, const std::vector<uint8_t>& blob) {
+    on_message(uid, epoch, ttl, leg, blob, salt == (uid ^ 0x5a5a5a5a5a5aULL));
+  }
+};
+
+static inline void on_message(uint64_t uid, int32_t epoch, int32_t ttl, int32_t leg, const std::vector<uint8_t>& blob, bool state_ok) {
+  {
     g_depth++;
-    bool ok = (blob == blob_of(uid, (long)blob.size()));
+    bool ok = state_ok && (blob == blob_of(uid, (long)blob.size()));
     hc::ev("X " + std::to_string(uid) + " " + std::to_string(epoch) + " " + (ok ? "1" : "0") + " " + std::to_string(leg) + " " + std::to_string(blob.size()) + " " + std::to_string(g_depth));
     if (leg >= 1000) g_flags[leg - 1000] = true;   // flag-setting message
     handler_body(uid, epoch, ttl);
     hc::ev("x " + std::to_string(uid));
     g_depth--;
   }
-};
+}
 
 static void issue_async(uint64_t uid, int dest, long size, int epoch, int ttl) {
   auto b = blob_of(uid, size);
   hc::ev("A " + std::to_string(uid) + " " + std::to_string(dest) + " " + std::to_string(size) + " " + ctx());
-  g_world->async(dest, msg_fn(), uid, (int32_t)epoch, (int32_t)ttl, (int32_t)0, b);
+  if (g_fstate) g_world->async(dest, msg_fn_s{uid ^ 0x5a5a5a5a5a5aULL}, uid, (int32_t)epoch, (int32_t)ttl, (int32_t)0, b);
+  else g_world->async(dest, msg_fn(), uid, (int32_t)epoch, (int32_t)ttl, (int32_t)0, b);
   hc::ev("a " + std::to_string(uid));
 }
 static void issue_flag(uint64_t uid, int dest, long flag, int epoch) {
   auto b = blob_of(uid, 4);
   hc::ev("A " + std::to_string(uid) + " " + std::to_string(dest) + " 4 " + ctx());
-  g_world->async(dest, msg_fn(), uid, (int32_t)epoch, (int32_t)0, (int32_t)(1000 + flag), b);
+  if (g_fstate) g_world->async(dest, msg_fn_s{uid ^ 0x5a5a5a5a5a5aULL}, uid, (int32_t)epoch, (int32_t)0, (int32_t)(1000 + flag), b);
+  else g_world->async(dest, msg_fn(), uid, (int32_t)epoch, (int32_t)0, (int32_t)(1000 + flag), b);
   hc::ev("a " + std::to_string(uid));
 }
 static void issue_bcast(uint64_t uid, long size, int epoch, int ttl) {
   auto b = blob_of(uid, size);
   hc::ev("BC " + std::to_string(uid) + " " + std::to_string(size) + " " + ctx());
-  g_world->async_bcast(msg_fn(), uid, (int32_t)epoch, (int32_t)ttl, (int32_t)1, b);
+  if (g_fstate) g_world->async_bcast(msg_fn_s{uid ^ 0x5a5a5a5a5a5aULL}, uid, (int32_t)epoch, (int32_t)ttl, (int32_t)1, b);
+  else g_world->async_bcast(msg_fn(), uid, (int32_t)epoch, (int32_t)ttl, (int32_t)1, b);
   hc::ev("bc " + std::to_string(uid));
 }
 static void issue_mcast(uint64_t uid, long size, int epoch, const std::vector<int>& dests) {
   auto b = blob_of(uid, size); std::string ds; for (int d : dests) ds += std::to_string(d) + ",";
   hc::ev("MC " + std::to_string(uid) + " " + std::to_string(size) + " " + ds);
-  g_world->async_mcast(dests, msg_fn(), uid, (int32_t)epoch, (int32_t)0, (int32_t)2, b);
+  if (g_fstate) g_world->async_mcast(dests, msg_fn_s{uid ^ 0x5a5a5a5a5a5aULL}, uid, (int32_t)epoch, (int32_t)0, (int32_t)2, b);
+  else g_world->async_mcast(dests, msg_fn(), uid, (int32_t)epoch, (int32_t)0, (int32_t)2, b);
   hc::ev("mc " + std::to_string(uid));
 }
 
@@ -110,8 +130,16 @@ struct Op { std::string kind; std::vector<std::string> f; };
 extern "C" int sim_main(int argc, char** argv) {
   std::vector<std::vector<Op>> prog;   // per epoch, this rank's ops
   int my = -1;
-  ygm::comm world(MPI_COMM_WORLD);
+  int subcomm = 0;
+  { std::ifstream pre(argv[1]); std::string l; while (std::getline(pre, l)) { std::stringstream ss(l); std::string w, k; long v; ss >> w; if (w == "param") { ss >> k >> v; if (k == "fstate") g_fstate = (int)v; if (k == "subcomm") subcomm = (int)v; } } }
+  MPI_Comm base = MPI_COMM_WORLD;
+  if (subcomm) {   // a communicator whose rank order is the reverse of MPI_COMM_WORLD's
+    int wr, ws; MPI_Comm_rank(MPI_COMM_WORLD, &wr); MPI_Comm_size(MPI_COMM_WORLD, &ws);
+    MPI_Comm_split(MPI_COMM_WORLD, 0, ws - 1 - wr, &base);
+  }
+  ygm::comm world(base);
   g_world = &world; g_rank = world.rank(); g_size = world.size(); my = g_rank;
+  hc::ev("ID " + std::to_string(g_rank));
   std::ifstream in(argv[1]); std::string line; int epochs = 0;
   std::vector<std::pair<int, Op>> ops;
   while (std::getline(in, line)) {
